@@ -281,6 +281,7 @@ def run_cases(name, imports, run_fn, case_type, cases, shard=300):
     for f in os.listdir(CASES_DIR):
         if f.startswith(name + "_"):
             os.unlink(os.path.join(CASES_DIR, f))
+    shard = max(40, min(shard, -(-len(cases) // max(1, JOBS))))     # at least one shard per job when there are enough cases
     shards = [cases[i:i + shard] for i in range(0, len(cases), shard)]
     jobs = []
     for k, sh_cases in enumerate(shards):
